@@ -525,3 +525,33 @@ func init() {
 			Old: "fv, err := strconv.ParseFloat(string(val), 64)", New: "fv, err := strconv.ParseFloat(string(val), 32)", Rule: "NUMWIDTH-1"},
 	)
 }
+
+func init() {
+	addMutants(
+		// ---- round-d strengthening
+		Mutant{ID: "pair1-demorgan-consume-string", Props: []string{"C01", "C11"}, File: "internal/jsonwire/decode.go", Func: "ConsumeStringResumable",
+			Old: "b[n] != '\\\\' || b[n+1] != 'u' || !ok", New: "b[n] != '\\\\' && b[n+1] != 'u' || !ok", Rule: "PAIR-1"},
+		Mutant{ID: "flagmask1-unmarshal-mask-loses-flag", Props: []string{"C04"}, File: "arshal_default.go", Func: "makeBytesArshaler",
+			Old: "if uo.Flags.Has(jsonflags.TagFlags | jsonflags.FormatByteArrayAsArray | jsonflags.FormatBytesWithLegacySemantics) {", New: "if uo.Flags.Has(jsonflags.TagFlags | jsonflags.FormatBytesWithLegacySemantics) {", Rule: "FLAGMASK-1"},
+		Mutant{ID: "full1-number-length-ignored", Props: []string{"C09", "C10"}, File: "v1/decode.go", Func: "Number.UnmarshalJSONFrom",
+			Old: "if n, err := jsonwire.ConsumeNumber(val); n != len(val) || err != nil {", New: "if _, err := jsonwire.ConsumeNumber(val); err != nil {", Rule: "FULL-1"},
+		Mutant{ID: "surr1-pair-not-checked", Props: []string{"C11", "C03"}, File: "internal/jsonwire/decode.go", Func: "AppendUnquote",
+			Old: "} else if r = utf16.DecodeRune(rune(v1), rune(v2)); r == utf8.RuneError {\n\t\t\t\t\t\terr = NewInvalidEscapeSequenceError(src[n-6 : n+6])\n\t\t\t\t\t} else {\n", New: "} else {\n\t\t\t\t\t\tr = utf16.DecodeRune(rune(v1), rune(v2))\n", Rule: "SURR-1"},
+		Mutant{ID: "mono1-nondefault-overwritten", Props: []string{"C15", "C17"}, File: "arshal_default.go", Func: "makeStructArshaler",
+			Old: "\t\t\t\tvar ok bool\n\t\t\t\tmarshal, ok = mo.Marshalers.(*Marshalers).lookup(marshal, f.typ)\n\t\t\t\tnonDefault = nonDefault || ok\n", New: "\t\t\t\tmarshal, nonDefault = mo.Marshalers.(*Marshalers).lookup(marshal, f.typ)\n", Rule: "MONO-1"},
+		Mutant{ID: "poison1-undo-only-last", Props: []string{"C16", "C05"}, File: "jsontext/state.go", Func: "objectNameStack.copyQuotedBuffer",
+			Old: "if quotedName[0] == invalidateBufferByte {", New: "if i == len(ns.offsets)-1 && quotedName[0] == invalidateBufferByte {", Rule: "POISON-1"},
+		Mutant{ID: "niltest1-writer-cleared-before-test", Props: []string{"C18", "C07"}, File: "jsontext/pools.go", Func: "putStreamingEncoder",
+			Old: "\tif _, ok := e.s.wr.(*bytes.Buffer); ok {\n\t\te.s.wr, e.s.Buf = nil, nil", New: "\te.s.wr = nil\n\tif _, ok := e.s.wr.(*bytes.Buffer); ok {\n\t\te.s.wr, e.s.Buf = nil, nil", Rule: "NILTEST-1"},
+		Mutant{ID: "publish1-cache-before-wrapping", Props: []string{"C17", "C18"}, File: "arshal.go", Func: "lookupArshaler",
+			Old: "\tfncs = makeMethodArshaler(fncs, t)\n", New: "\tif v, loaded := lookupArshalerCache.LoadOrStore(t, fncs); loaded {\n\t\treturn v.(*arshaler)\n\t}\n\tfncs = makeMethodArshaler(fncs, t)\n", Rule: "PUBLISH-1"},
+		Mutant{ID: "eof1-errors-is", Props: []string{"C05", "C01"}, File: "jsontext/decode.go", Func: "decoderState.PeekKind",
+			Old: "if err == io.ErrUnexpectedEOF && d.Tokens.Depth() == 1 {", New: "if errors.Is(err, io.ErrUnexpectedEOF) && d.Tokens.Depth() == 1 {", Rule: "EOF-1"},
+		Mutant{ID: "format1-number-length-of-other-var", Props: []string{"C13", "C12"}, File: "internal/jsonwire/encode.go", Func: "ReformatNumber",
+			Old: "if !flags.Get(jsonflags.CanonicalizeRawInts) || n < maxExactIntegerDigits {", New: "digits := n - 1\n\t\tif !flags.Get(jsonflags.CanonicalizeRawInts) || digits < maxExactIntegerDigits {", Rule: "FORMAT-1"},
+		Mutant{ID: "opt3-getoption-fallback-overrides", Props: []string{"C19"}, File: "internal/jsonopts/options.go", Func: "GetOption",
+			Old: "if !ok && opt == jsonflags.StringifyNumbers", New: "if opt == jsonflags.StringifyNumbers", Rule: "OPT-3"},
+		Mutant{ID: "err1-array-skip-error-dropped", Props: []string{"C20", "C05"}, File: "arshal_default.go", Func: "makeArrayArshaler",
+			Old: "\t\t\t\t\tif err := dec.SkipValue(); err != nil {\n\t\t\t\t\t\treturn err\n\t\t\t\t\t}\n\t\t\t\t\terr = errArrayOverflow\n", New: "\t\t\t\t\tdec.SkipValue()\n\t\t\t\t\terr = errArrayOverflow\n", Rule: "ERR-1"},
+	)
+}
